@@ -81,6 +81,7 @@ Theorem C09_ErrorIq_backoff0_refuted : refutes schema_ErrorIq_wide wit_ErrorIq.
 Proof. exact ErrorIq_backoff0_refuted. Qed.
 Print Assumptions C09_ErrorIq_backoff0_refuted.
 
+(* repaired (fixes/C09-remove-groups-mode.patch), witness against the pre-fix class kept *)
 Theorem C09_RemoveGroupsNotification_mode_refuted :
   refutes schema_RemoveGroupsNotification_mode wit_RemoveGroups.
 Proof. exact RemoveGroupsNotification_mode_refuted. Qed.
